@@ -659,7 +659,10 @@ func runTamper(in *AuthInput, res *Result) {
 						}
 						m = g
 					}
-					if pos != "head" {
+					if field == "hash-alias" && pos == "head-rehashed" {
+						return // identical to the genuine entry
+					}
+					if pos != "head" && field != "hash-alias" {
 						if err := rehash(ctx, a.x, m); err != nil {
 							// cannot even be encoded: nothing to deliver
 							res.Stats["unencodable"]++
@@ -680,7 +683,7 @@ func runTamper(in *AuthInput, res *Result) {
 					intact := m.Verify(a.r.DB.Identity().Provider, a.rr.S.IO()) == nil
 					samedb := m.LogID == a.addr
 					unchanged := realHash.Defined() && realHash.Equals(e2.GetHash()) && m.Hash.Equals(realHash) // the mutation left the entry and its address as they were
-					mustReject := !intact || !samedb || (pos == "head" && !hashok)
+					mustReject := !intact || !samedb || !hashok
 					restartCheck := func(keys []string) string {
 						if err := a.restartReplica(); err != nil {
 							return "restart: " + err.Error()
